@@ -108,6 +108,8 @@ func c17Cases() []retCase {
 		{"xml/whitespace-between-records", sch("xml", "", "/root/rec"), "<root>\n  <hdr>h</hdr>\n", "</root>", func(int) string { return "  <rec><v>1</v><w>x</w></rec>\n" }, 1},
 		{"xml/filtered", sch("xml", "", "/root/rec[v='1']"), "<root>", "</root>", alt("<rec><v>1</v></rec>", "<rec><v>2</v></rec>"), 1},
 		{"xml/filtered-by-attribute-padded-xpath", sch("xml", "", "  /root/rec[@k='1'] \n"), "<root>", "</root>", alt(`<rec k="1"><v>1</v></rec>`, `<rec k="2"><v>2</v></rec>`), 1},
+		{"xml/filtered-by-attribute-quote-in-literal", sch("xml", "", `/root/rec[@k="o'b"]`), "<root>", "</root>", alt(`<rec k="o'b"><v>1</v></rec>`, `<rec k="ob"><v>2</v></rec>`), 1},
+		{"xml/filtered-by-attribute-double-quote-in-literal", sch("xml", "", `/root/rec[@k='say "hi"' and @j="it's"]`), "<root>", "</root>", alt(`<rec k='say "hi"' j="it's"><v>1</v></rec>`, `<rec k="say" j="its"><v>2</v></rec>`), 1},
 		{"xml/filtered-quote-in-literal", sch("xml", "", `/root/rec[v="o'b"]`), "<root>", "</root>", alt("<rec><v>o'b</v></rec>", "<rec><v>2</v></rec>"), 1},
 		{"json/filtered-padded-xpath", sch("json", "", " /recs/*[v='1'] "), `{"recs": [`, `{"v": "last"}]}`, alt(`{"v": "1"},`, `{"v": "2"}, `), 1},
 		{"xml/nested-groups", sch("xml", "", "/root/g/rec"), "<root><g>", "</g></root>", func(int) string { return "<rec><v>1</v></rec>" }, 1},
